@@ -160,4 +160,38 @@ ColumnOrderInvariant(F) == /\ Parse(PermuteCols(F, Reversal(Len(F.header)))) = P
 RowOrderInvariant(F) == (OneRowPerCoordinate(F) /\ ConsistentMeta(F)) =>
                            /\ Parse(PermuteRows(F, Reversal(Len(F.rows)))) = Parse(F)
                            /\ Parse(PermuteRows(F, Rotation(Len(F.rows)))) = Parse(F)
+
+---------------------------------------------------------------------------
+(* The reader as the code has it (implementation-shaped): one pass over the rows that keeps a table of the location  *)
+(* metadata first seen for every id and stores each data cell under the key (time, lead, id, lat, lon, elev), then a  *)
+(* densification pass over sorted times x sorted lead times x locations.  TLC checks that it computes Parse(F).        *)
+DataCols(F) == {k \in DOMAIN F.header : Class(F.header[k]) \in {"obs", "fcst", "pit", "threshold", "quantile", "member", "other"}}
+RowLoc(F, r) == [id |-> RowId(F, r),
+                 lat |-> IF HasCol(F, "lat") THEN (LET v == Cell(F, r, "lat") IN IF IsNaN(v) THEN Zero ELSE v) ELSE Zero,
+                 lon |-> IF HasCol(F, "lon") THEN (LET v == Cell(F, r, "lon") IN IF IsNaN(v) THEN Zero ELSE v) ELSE Zero,
+                 elev |-> IF HasCol(F, "elev") THEN (LET v == Cell(F, r, "elev") IN IF IsNaN(v) THEN Zero ELSE v) ELSE Zero]
+RECURSIVE RowLoop(_, _, _)
+RowLoop(F, r, st) ==      \* st = [times, leads, locinfo (id -> location), cells (key -> row number that wrote it last)]
+  IF r > Len(F.rows) THEN st
+  ELSE LET id == RowId(F, r)
+           known == id \in DOMAIN st.locinfo
+           loc == IF known THEN st.locinfo[id] ELSE RowLoc(F, r)
+           key == <<RowTime(F, r), RowLead(F, r), id, loc.lat, loc.lon, loc.elev>>
+       IN  RowLoop(F, r + 1, [times |-> st.times \cup {RowTime(F, r)}, leads |-> st.leads \cup {RowLead(F, r)},
+                              locinfo |-> IF known THEN st.locinfo ELSE [j \in DOMAIN st.locinfo \cup {id} |-> IF j = id THEN loc ELSE st.locinfo[j]],
+                              cells |-> [q \in DOMAIN st.cells \cup {key} |-> IF q = key THEN r ELSE st.cells[q]]])
+EmptyLoopState == [times |-> {}, leads |-> {}, locinfo |-> <<>>, cells |-> <<>>]
+LoopParse(F) ==
+  LET st == RowLoop(F, 1, EmptyLoopState)
+      times == SortInts(st.times)  leads == SortRSet(st.leads)  ids == SortInts(DOMAIN st.locinfo)
+      coords == {<<t, l, id>> : t \in Elems(times), l \in Elems(leads), id \in Elems(ids)}
+      keyOf(c) == LET loc == st.locinfo[c[3]] IN <<c[1], c[2], c[3], loc.lat, loc.lon, loc.elev>>
+      FieldOf(k) == [c \in coords |-> IF keyOf(c) \in DOMAIN st.cells THEN Decode(F.rows[st.cells[keyOf(c)]][k]) ELSE NaN]
+  IN  [times |-> times, leads |-> leads, ids |-> ids, locations |-> [n \in DOMAIN ids |-> st.locinfo[ids[n]]],
+       obs |-> IF HasCol(F, "obs") THEN FieldOf(PickCol(F, "obs")) ELSE <<>>,
+       fcst |-> IF HasCol(F, "fcst") THEN FieldOf(PickCol(F, "fcst")) ELSE <<>>,
+       pit |-> IF HasCol(F, "pit") THEN FieldOf(PickCol(F, "pit")) ELSE <<>>]
+LoopRefinesParse(F) ==
+  LET A == LoopParse(F)  B == Parse(F) IN
+  A.times = B.times /\ A.leads = B.leads /\ A.ids = B.ids /\ A.locations = B.locations /\ A.obs = B.obs /\ A.fcst = B.fcst /\ A.pit = B.pit
 =============================================================================
